@@ -18,7 +18,7 @@ Enums, structs, members, attributes, comments and the block structure have no ro
 -/
 import SymbolVerif.Model.Cats.Parser
 import SymbolVerif.Model.Cats.Printer
-import SymbolVerif.Proofs.CatsScanLemmas
+import SymbolVerif.Proofs.CatsDocument
 namespace SymbolVerif.C04
 open SymbolVerif.Cats SymbolVerif.Cats.Lexer SymbolVerif.Cats.Parser
 
@@ -55,84 +55,72 @@ theorem hex_dec_same_value :
     number "0x00".toList = number "000".toList ∧ number "0xFFFFFFFFFFFFFFFF".toList = number "18446744073709551615".toList := by
   decide
 
-/-! ### the alias line -/
+/-! ### line level: every declaration and member form is read back from its printed line -/
 
-/-- an integer type of the DSL: 1, 2, 4 or 8 bytes, no size reference (that comes from post-processing) -/
-def WFInt (t : IntType) : Prop := (t.size = 1 ∨ t.size = 2 ∨ t.size = 4 ∨ t.size = 8) ∧ t.sizeref = none
+/-- Character-level round trip of an alias declaration line: the text `Alias.__str__` prints for a well-formed alias
+    is read back by the top-level line parser as exactly that alias (name, signedness, width / buffer length). -/
+theorem parse_render_alias_line (a : Alias) (h : WFAlias a) :
+    parseTopLine .start a.render.toList = some (.alias a.name a.linkedType) :=
+  parseTopLine_alias a h
 
-/-- a well-formed alias: name in the class `USER_TYPE_NAME`, a supported integer type or any buffer size -/
-def WFAlias (a : Alias) : Prop :=
-  IsUserTypeName a.name.toList ∧ (match a.linkedType with | .int t => WFInt t | .buffer _ => True)
+/-- the header line of an enum: name and base type (all eight integer types) -/
+theorem parse_render_enum_header (name : String) (base : IntType) (hn : IsTypeName name) (hb : WFInt base) :
+    parseTopLine .start (s!"enum {name} : {base.render}").toList = some (.enumHeader name base) :=
+  parseTopLine_enumHeader name base hn hb
 
-theorem alias_render_toList (a : Alias) :
-    a.render.toList = 'u' :: 's' :: 'i' :: 'n' :: 'g' :: ' ' :: (a.name.toList ++ ' ' :: '=' :: ' ' :: a.linkedType.render.toList) := by
-  simp [Alias.render, String.toList_append, toString]
+/-- an enum value line `NAME = n`, any constant name, any number (printed in decimal) -/
+theorem parse_render_enum_value (v : EnumValue) (h : WFEnumValue v) : parseEnumLine v.render.toList = some v :=
+  parseEnumLine_render v h
 
-theorem fixed_shortName (u : Bool) (sz : Nat) (h : sz = 1 ∨ sz = 2 ∨ sz = 4 ∨ sz = 8) :
-    fixedSizeInteger (' ' :: (IntType.shortName ⟨u, sz, none⟩).toList) = some ((u, sz), []) := by
-  rcases h with rfl | rfl | rfl | rfl <;> cases u <;> decide
+/-- the header line of a struct, plain / `abstract` / `inline` -/
+theorem parse_render_struct_header (d : Option String) (name : String) (hd : d ∈ structDispositions) (hn : IsTypeName name) :
+    parseTopLine .start (structHeaderText d name).toList = some (.structHeader d name) :=
+  parseTopLine_structHeader d name hd hn
 
-theorem tail_head_not_type (t : Chars) (c : Char) (h : (' ' :: t).head? = some c) : isTypeChar c = false := by
-  simp at h; subst h; decide
+/-- Every member form (`WFMember`: plain member of a named type, of a builtin integer type, array counted by a
+    number / sized by a member / `__FILL__`, each with or without a condition (`equals`, `not equals`, `in`,
+    `not in`; numeric or constant value), the `__value__` placeholder, `make_const`, `make_reserved` (integer or
+    enum constant), `sizeof`, named inline, unnamed inline) is read back from the line `StructField.__str__` /
+    `StructInlinePlaceholder.__str__` prints for it. -/
+theorem parse_render_member (m : Member) (h : WFMember m) : parseStructLine false m.render.toList = some (.member m) :=
+  parseStructLine_render m h
 
-theorem buffer_render_toList (n : Nat) :
-    (LinkedType.render (.buffer n)).toList = "binary_fixed(".toList ++ ((toString n).toList ++ [')']) := by
-  simp [LinkedType.render, String.toList_append, toString]
+/-! ### document level -/
 
-/-- Character-level round trip of an alias declaration: the text `Alias.__str__` prints for a well-formed alias is
-    read back by the top-level line parser as exactly that alias (name, signedness, width / buffer length). -/
-theorem parse_render_alias_partial (a : Alias) (h : WFAlias a) :
-    parseTopLine .start a.render.toList = some (.alias a.name a.linkedType) := by
-  obtain ⟨name, lt, c⟩ := a
-  obtain ⟨hn, hlt⟩ := h
-  simp only at hn hlt
-  have hu : isWs 'u' = false := by decide
-  rw [alias_render_toList]
-  simp only
-  have hscan := userTypeName_with_blank name.toList (' ' :: '=' :: ' ' :: lt.render.toList) hn (tail_head_not_type _)
-  have e1 : structModifier ('u' :: 's' :: 'i' :: 'n' :: 'g' :: ' ' :: (name.toList ++ ' ' :: '=' :: ' ' :: lt.render.toList)) = none :=
-    structModifier_none_of_head _ _ hu (by decide) (by decide)
-  have e2 : lit "import" ('u' :: 's' :: 'i' :: 'n' :: 'g' :: ' ' :: (name.toList ++ ' ' :: '=' :: ' ' :: lt.render.toList)) = none :=
-    lit_none_of_head "import" 'i' _ rfl _ _ hu (by decide)
-  have e3 : lit "struct" ('u' :: 's' :: 'i' :: 'n' :: 'g' :: ' ' :: (name.toList ++ ' ' :: '=' :: ' ' :: lt.render.toList)) = none :=
-    lit_none_of_head "struct" 's' _ rfl _ _ hu (by decide)
-  have e4 := lit_using (' ' :: (name.toList ++ ' ' :: '=' :: ' ' :: lt.render.toList))
-  have hA : lit "=" (' ' :: '=' :: ' ' :: lt.render.toList) = some (' ' :: lt.render.toList) := by
-    simp [lit, skipWs, List.dropWhile, isWs, List.isPrefixOf]
-  have hC : atEol ([] : Chars) = true := by decide
-  cases lt with
-  | int t =>
-    obtain ⟨u, sz, sr⟩ := t
-    obtain ⟨hsz, hsr⟩ := hlt
-    simp only at hsz hsr
-    subst hsr
-    have hB := fixed_shortName u sz hsz
-    simp only [LinkedType.render, IntType.render] at hscan hA e1 e2 e3 e4 ⊢
-    simp only [parseTopLine, e1, e2, e3, e4, aliasRest, hscan, bind, Option.bind, hA, hB, hC, if_true, mkInt,
-      String.ofList_toList]
-  | buffer n =>
-    rw [buffer_render_toList] at hscan hA e1 e2 e3 e4 ⊢
-    have hB : fixedSizeInteger (' ' :: ("binary_fixed(".toList ++ ((toString n).toList ++ [')']))) = none := by
-      simp [fixedSizeInteger, skipWs, List.dropWhile, isWs, litHere, List.isPrefixOf]
-    have hD : lit "binary_fixed" (' ' :: ("binary_fixed(".toList ++ ((toString n).toList ++ [')']))) =
-        some ('(' :: ((toString n).toList ++ [')'])) := by
-      simp [lit, skipWs, List.dropWhile, isWs, List.isPrefixOf]
-    have hE : lit "(" ('(' :: ((toString n).toList ++ [')'])) = some ((toString n).toList ++ [')']) := by
-      simp [lit, skipWs, List.dropWhile, isWs, List.isPrefixOf]
-    have hF : number ((toString n).toList ++ [')']) = some (n, [')']) :=
-      number_repr n [')'] (by intro c hc; simp at hc; subst hc; exact ⟨by decide, by decide⟩)
-    have hG : lit ")" [')'] = some [] := by decide
-    simp only [parseTopLine, e1, e2, e3, e4, aliasRest, hscan, bind, Option.bind, hA, hB, hC, hD, hE, hF, hG, if_true,
-      String.ofList_toList]
+/-- **parse_render** for declarations without attributes and comments (`WFDecls`, `Proofs/CatsWF.lean`: names in
+    their lexical classes, the eight integer types, natural numbers, members not called `inline`, at least one
+    member per struct): the text the printer emits for any non-empty list of such declarations — aliases, enums
+    with any number of values, structs with every member form, in any order — parses back to exactly these
+    declarations. Character level, through the whole model: line splitting, indentation events, blocks, statement
+    loops and every line parser. -/
+theorem parse_render (ds : Schema) (h : WFDecls ds) (hne : ds ≠ []) : parse (Printer.print ds).toList = .ok ds :=
+  parse_print ds h hne
 
-/-- the legacy descriptor of the alias read back from its printed line is the descriptor of the alias (the comment
-    is attached at the statement level and is not part of the line). -/
-theorem legacy_of_parse_alias_partial (a : Alias) (h : WFAlias a) :
-    (parseTopLine .start a.render.toList).map (fun
-      | .alias n t => (Alias.toLegacy { name := n, linkedType := t, comment := a.comment })
-      | _ => []) = some a.toLegacy := by
-  rw [parse_render_alias_partial a h]
+/-- one enum declaration (any number of values, zero included) -/
+theorem parse_render_enum (e : Enum) (h : WFEnum e) : parse (Printer.print [.enum e]).toList = .ok [.enum e] :=
+  parse_render [.enum e] (by intro d hd; simp only [List.mem_singleton] at hd; subst hd; exact .enum e h) (by simp)
+
+/-- one struct declaration with any non-empty list of well-formed members -/
+theorem parse_render_struct (s : Struct) (h : WFStruct s) : parse (Printer.print [.struct s]).toList = .ok [.struct s] :=
+  parse_render [.struct s] (by intro d hd; simp only [List.mem_singleton] at hd; subst hd; exact .struct s h) (by simp)
+
+/-- one alias declaration -/
+theorem parse_render_alias (a : Alias) (h : WFAlias a) (hc : a.comment = none) :
+    parse (Printer.print [.alias a]).toList = .ok [.alias a] :=
+  parse_render [.alias a] (by intro d hd; simp only [List.mem_singleton] at hd; subst hd; exact .alias a h hc) (by simp)
+
+/-- the descriptors of the parsed text are the descriptors of the declarations that were printed -/
+theorem legacy_of_parse (ds : Schema) (h : WFDecls ds) (hne : ds ≠ []) :
+    (parse (Printer.print ds).toList).map (fun r => r.map Decl.toLegacy) = .ok (ds.map Decl.toLegacy) := by
+  rw [parse_render ds h hne]
   rfl
+
+/-- printing what was parsed and parsing again gives the same declarations, for every document whose declarations
+    are well-formed in the sense above (that the parser only produces such declarations is not proved here; on the
+    model and on the implementation it is checked by the correspondence run) -/
+theorem print_parse_fixpoint_partial (doc : Chars) (ds : Schema) (_hparse : parse doc = .ok ds) (h : WFDecls ds)
+    (hne : ds ≠ []) : parse (Printer.print ds).toList = .ok ds :=
+  parse_render ds h hne
 
 /-! ### non-vacuity: whole documents on the model -/
 
@@ -144,5 +132,23 @@ example : (parseString "struct Foo\n\t@alignment(8)\n\tab = array(uint8, __FILL_
 
 example : WFAlias { name := "Hash256", linkedType := .buffer 32 } :=
   ⟨⟨'H', 'a', "sh256".toList, rfl, by decide, by decide, by decide⟩, trivial⟩
+
+/-- a document with all three kinds of declaration satisfies the hypotheses of `parse_render` -/
+example : WFDecls [
+    .alias { name := "Ab", linkedType := .int ⟨true, 4, none⟩ },
+    .enum { name := "Cd", base := ⟨false, 1, none⟩, values := [{ name := "XY", value := .int (7 : Nat) }] },
+    .struct { name := "Ef", fields := [.inlinePlaceholder "Ab" none] }] := by
+  have hAb : IsTypeName "Ab" := ⟨'A', 'b', [], rfl, by decide, by decide, by decide⟩
+  have hCd : IsTypeName "Cd" := ⟨'C', 'd', [], rfl, by decide, by decide, by decide⟩
+  have hEf : IsTypeName "Ef" := ⟨'E', 'f', [], rfl, by decide, by decide, by decide⟩
+  have hXY : IsConstantName "XY" := ⟨'X', 'Y', [], rfl, by decide, by decide, by decide⟩
+  intro d hd
+  simp only [List.mem_cons, List.mem_singleton, List.not_mem_nil, or_false] at hd
+  rcases hd with rfl | rfl | rfl
+  · exact .alias _ ⟨hAb, ⟨Or.inr (Or.inr (Or.inl rfl)), rfl⟩⟩ rfl
+  · exact .enum _ (.mk _ _ _ hCd ⟨Or.inl rfl, rfl⟩ (by
+      intro v hv; simp only [List.mem_singleton] at hv; subst hv; exact .mk "XY" 7 hXY))
+  · exact .struct _ (.mk none "Ef" _ (by simp [structDispositions]) hEf (by simp) (by
+      intro m hm; simp only [List.mem_singleton] at hm; subst hm; exact .unnamedInline "Ab" hAb))
 
 end SymbolVerif.C04
